@@ -545,20 +545,77 @@ def run(tier="quick", seed=0, repo="/repo"):
                 check_case(ctx, "L2Cost,data in units of 2^-15," + mclass(m), {"kind": "L2Cost"}, X, m, beta * unit, 0.0, C,
                            "run_pelt" if i % 3 else "class", unit=unit)
 
+    # --- E. one long series ------------------------------------------------------------------------------------------------------
+    for n_long, m_long in ((3000, 2),) if quick else ((3000, 2), (6000, 1)):
+        inp_long = {"check": "long", "n": n_long, "m": m_long, "seed": seed}
+        rec.case(("long", n_long, m_long), check_long(rec, inp_long), None)
+
     fam = {k: {kk: vv for kk, vv in v.items() if kk != "_rank"} for k, v in sorted(ctx.family.items())}
     return rec.result(
         RULE,
         "n <= 9, min_segment_length <= 3, penalty in {0,0.5,1,2,4}, split cost in {0,1}; integer table costs (values -3..6, slacks 0..6; "
         f"complete over the listed small scopes, {n_random} random tables) and L2/Gaussian costs on integer data "
         f"(all of {{0,1,2}}^n for n <= {n_exh}, {n_data} random series with entries in -3..3, p <= 2); {n_scaled} of the random tables "
-        "again in units of 2^-30 / with an offset of 2^30 per sample, L2Cost on data in units of 2^-15",
+        "again in units of 2^-30 / with an offset of 2^30 per sample, L2Cost on data in units of 2^-15; one series of 3000 rows (PELT class, L2 cost) against the unpruned recursion",
         exhaustive=False, exhaustive_subscopes=exhaustive_scopes, by_family=fam, cases_with_tie_at_pruning_boundary=ctx.ties,
         table_runs_with_measured_pruning=ctx.pruned_measured, oracle_selfchecks=ctx.oracle_checks,
         skipped_outside_hypothesis=ctx.skipped)
 
 
+def check_long(rec, inp):
+    """One LONG series through the PELT class (L2 cost): prefix scores, final score and the returned changepoints against an
+    unpruned optimal-partitioning recursion evaluated with NumPy (O(n^2)); the small scopes above cannot see anything that only
+    breaks beyond some thousand rows (block-wise evaluation, size-keyed caches, narrow index types).  inp: {"n", "m", "seed"}."""
+    import pandas as pd
+    from skchange.change_detectors import PELT
+    n, m = int(inp["n"]), int(inp["m"])
+    rng = np.random.default_rng(int(inp["seed"]))
+    x = rng.normal(size=n)
+    for c in sorted(rng.choice(np.arange(50, n - 50), size=12, replace=False)):
+        x[c:] += rng.choice([-2.0, 2.0, 3.0])
+    x[n - 7:] += 4.0                                      # a change close to the end
+    X = x.reshape(-1, 1)
+    try:
+        det = PELT(min_segment_length=m, penalty_scale=2.0).fit(pd.DataFrame(X))
+        scores = np.asarray(det.transform_scores(pd.DataFrame(X)), dtype=float).reshape(-1)
+        cps = [int(c) for c in np.asarray(det.predict(pd.DataFrame(X))).reshape(-1)]
+        beta = float(det.penalty_)
+    except Exception as e:      # noqa: BLE001
+        rec.violation("PELT:long-series:raises", f"PELT(min_segment_length={m}) on n={n} raised {type(e).__name__}: {str(e)[:120]}", "C02.minimiser", inp,
+                      target="skchange/change_detectors/pelt.py::PELT")
+        return True
+    S = np.concatenate(([0.0], np.cumsum(x)))
+    Q = np.concatenate(([0.0], np.cumsum(x * x)))
+    F = np.full(n + 1, np.inf)
+    F[0] = -beta
+    for t in range(m, n + 1):
+        s = np.arange(0, t - m + 1)
+        s = s[(s == 0) | (s >= m)]
+        seg = (Q[t] - Q[s]) - (S[t] - S[s]) ** 2 / (t - s)
+        F[t] = np.min(F[s] + seg + beta)
+    b = [0] + cps + [n]
+    got = sum((Q[e] - Q[a]) - (S[e] - S[a]) ** 2 / (e - a) for a, e in zip(b[:-1], b[1:])) + beta * len(cps)
+    tol = 1e-7 * (1.0 + abs(F[n]))
+    if any(e - a < m for a, e in zip(b[:-1], b[1:])) or abs(got - F[n]) > tol:
+        rec.violation("PELT:not-optimal:long-series", f"PELT(min_segment_length={m}, penalty={beta:.6g}) on n={n}: the returned {len(cps)} changepoints cost {got:.10g} "
+                      f"(penalised), the minimum over all segmentations is {F[n]:.10g}", "C02.minimiser", inp, target="skchange/change_detectors/pelt.py::PELT")
+        return True
+    t = np.arange(m, n + 1)
+    bad = t[np.abs(scores[t - 1] - F[t]) > 1e-7 * (1.0 + np.abs(F[t]))]
+    if len(scores) != n or len(bad):
+        k = int(bad[0]) if len(bad) else -1
+        rec.violation("PELT:not-optimal:long-series", f"PELT(min_segment_length={m}) on n={n}: {len(bad)} prefix scores differ from the optimal penalised cost, first at "
+                      f"prefix length {k}: {scores[k - 1] if k > 0 else None!r} vs {F[k] if k > 0 else None!r}", "C02.prefix-scores", inp,
+                      target="skchange/change_detectors/pelt.py::PELT")
+    return True
+
+
 def replay(inp, repo="/repo"):
     use_repo(repo)
+    if inp.get("check") == "long":
+        rec = Recorder()
+        check_long(rec, inp)
+        return {"violated": bool(rec.violations), "detail": rec.violations[0]["what"] if rec.violations else "holds"}
     X = np.array(inp["X"], dtype=float)
     if X.ndim == 1:
         X = X.reshape(-1, 1)
